@@ -388,14 +388,15 @@ def _quantifier_var(ctx: Ctx, r: RuleResult):
         return any(isinstance(x, Attr) and x.base == dom and x.name == 'subtypes' for x in walk(t))
 
     def kinds_in(test, pol: bool):
-        """is_set / is_range atoms that make `test` evaluate to `pol` (through and / or / not)"""
-        if isinstance(test, Op) and test.op == 'not' and len(test.args) == 1:
-            yield from kinds_in(test.args[0], not pol)
-        elif isinstance(test, Op) and test.op in ('and', 'or'):
-            for a in test.args:
-                yield from kinds_in(a, pol)
-        elif pol and isinstance(test, Attr) and test.base == dom and test.name in ('is_set', 'is_range'):
-            yield test.name
+        """the kinds of literal domain (is_set / is_range; a domain is one or the other, never both) for which `test`
+        evaluates to `pol`"""
+        from .terms import eval_bool
+        for k, other in (('is_set', 'is_range'), ('is_range', 'is_set')):
+            if not any(isinstance(x, Attr) and x.base == dom and x.name == k for x in walk(test)):
+                continue
+            known = {Attr(dom, k): True, Attr(dom, other): False, Attr(dom, 'is_value'): True}
+            if eval_bool(test, known) is pol:
+                yield k
     for vfi in c.all_validators('condition'):
         params = vfi.params()
         outs = ctx.ev.run(vfi, {params[0]: self_t, params[2]: Sym('value')}, self_cls=c)
